@@ -288,6 +288,10 @@ class ProducerScenario:
         if mode[0] == "down":
             for n in (self.cluster.nodes if mode[1] == "all" else [mode[1]]):
                 self.cluster.broker_down(n)
+        elif mode[0] == "leaderless":
+            # the partition loses its leader for good (no election): metadata reports leader -1 / LEADER_NOT_AVAILABLE,
+            # the old leader answers NOT_LEADER_FOR_PARTITION
+            self.cluster.partition("t", mode[1]).leader = -1
         else:
             self.cluster.blackhole = True
 
